@@ -199,3 +199,287 @@ Proof.
     + apply sec_str_shape. exact S9.
   - apply TR_err; [exact Hfm | apply trs_of_nomatch; assumption].
 Qed.
+
+(* ================================================================== *)
+(* Completeness: a text of the right shape is matched *)
+Inductive cshape (ds : list (N * N)) (a : str) : Prop :=
+| CSh_valid w d : a = w ++ [d] -> 1 <= length w <= 3 -> Forall (inset DIG) w -> inset ds d -> cshape ds a
+| CSh_err : a = ERR4 -> cshape ds a
+| CSh_und : a = UND4 -> cshape ds a.
+
+Inductive sshape (c : str) : Prop :=
+| SSh_none : c = [] -> sshape c
+| SSh_dig d1 d2 : c = [d1; d2] -> inset DIG d1 -> inset DIG d2 -> sshape c
+| SSh_err : c = MC_ERR_SEC -> sshape c
+| SSh_und : c = MC_UNDEF_SEC -> sshape c.
+
+Lemma four_path x z c1 c2 c3 c4 s g r :
+  rest s = [c1; c2; c3; c4] ++ r -> inset x c1 -> inset x c2 -> inset x c3 -> inset z c4 ->
+  In (adv s [c1; c2; c3; c4], g) (ms (four x z) s g).
+Proof.
+  intros Hr I1 I2 I3 I4. unfold four.
+  apply in_ms_seq. exists (adv s [c1], g). split; [apply (in_ms_chr_adv x s g c1 ([c2; c3; c4] ++ r)); assumption|]. cbn [fst snd].
+  assert (R1 : rest (adv s [c1]) = [c2; c3; c4] ++ r) by (apply (adv_rest s [c1]); exact Hr).
+  apply in_ms_seq. exists (adv (adv s [c1]) [c2], g). split; [apply (in_ms_chr_adv x _ g c2 ([c3; c4] ++ r)); assumption|]. cbn [fst snd].
+  assert (R2 : rest (adv (adv s [c1]) [c2]) = [c3; c4] ++ r) by (apply (adv_rest _ [c2]); exact R1).
+  apply in_ms_seq. exists (adv (adv (adv s [c1]) [c2]) [c3], g). split; [apply (in_ms_chr_adv x _ g c3 ([c4] ++ r)); assumption|]. cbn [fst snd].
+  assert (R3 : rest (adv (adv (adv s [c1]) [c2]) [c3]) = [c4] ++ r) by (apply (adv_rest _ [c3]); exact R2).
+  replace (adv s [c1; c2; c3; c4]) with (adv (adv (adv (adv s [c1]) [c2]) [c3]) [c4]) by (rewrite !adv_app; reflexivity).
+  apply (in_ms_chr_adv z _ g c4 r); assumption.
+Qed.
+
+Lemma two_path x c1 c2 s g r :
+  rest s = [c1; c2] ++ r -> inset x c1 -> inset x c2 -> In (adv s [c1; c2], g) (ms (Seq (Chr x) (Chr x)) s g).
+Proof.
+  intros Hr I1 I2. apply in_ms_seq. exists (adv s [c1], g). split; [apply (in_ms_chr_adv x s g c1 ([c2] ++ r)); assumption|]. cbn [fst snd].
+  replace (adv s [c1; c2]) with (adv (adv s [c1]) [c2]) by (rewrite adv_app; reflexivity).
+  apply (in_ms_chr_adv x _ g c2 r); [apply (adv_rest s [c1]); exact Hr | exact I2].
+Qed.
+
+Lemma X88 : inset XS 88%N. Proof. reflexivity. Qed.
+Lemma Z122 : inset ZS 122%N. Proof. reflexivity. Qed.
+Lemma U95 : inset US 95%N. Proof. reflexivity. Qed.
+
+Lemma comp_path gi gn gd ds s g a r :
+  cshape ds a -> rest s = a ++ r -> exists g', In (adv s a, g') (ms (comp gi gn gd DIG ds XS ZS US) s g).
+Proof.
+  intros Hs Hr. unfold comp. destruct Hs as [w d -> Hl Hf Hd| -> | ->].
+  - rewrite <- app_assoc in Hr.
+    assert (H1 : In (adv s w, g) (ms (Rep 1 (Some 3) (Chr DIG)) s g)).
+    { apply (in_ms_rep_intro 1 (Some 3) (Chr DIG) s g _ (length w)); [apply chr_strict | apply (chain_chr_intro DIG w s g ([d] ++ r)); assumption | lia | lia |].
+      unfold rep_fuel. rewrite Hr, app_length. lia. }
+    assert (R1 : rest (adv s w) = d :: r) by (apply (adv_rest s w); exact Hr).
+    set (s1 := adv s w) in *. set (g1 := setg g gn (idx s, idx s1)). set (s2 := adv s1 [d]). set (g2 := setg g1 gd (idx s1, idx s2)).
+    exists (setg g2 gi (idx s, idx s2)). rewrite <- adv_app. fold s1. fold s2.
+    apply in_ms_alt. left. apply in_ms_grp. exists (s2, g2). split; [|reflexivity].
+    apply in_ms_seq. exists (s1, g1). split; [apply in_ms_grp; exists (s1, g); split; [exact H1 | reflexivity]|]. cbn [fst snd].
+    apply in_ms_grp. exists (s2, g1). split; [apply (in_ms_chr_adv ds _ _ d r); [exact R1 | exact Hd] | reflexivity].
+  - exists g. apply in_ms_alt. right. apply in_ms_alt. left. apply (four_path XS ZS 88 88 88 122 s g r Hr X88 X88 X88 Z122).
+  - exists g. apply in_ms_alt. right. apply in_ms_alt. right. apply (four_path US ZS 95 95 95 122 s g r Hr U95 U95 U95 Z122).
+Qed.
+
+Lemma sec_path s g c r : sshape c -> c <> [] -> rest s = c ++ r -> In (adv s c, g) (ms (secre DIG XS US) s g).
+Proof.
+  intros Hs Hne Hr. unfold secre. destruct Hs as [-> | d1 d2 -> I1 I2 | -> | ->]; [contradiction | | |].
+  - apply in_ms_alt. left.
+    apply (in_ms_rep_intro 2 (Some 2) (Chr DIG) s g _ 2); [apply chr_strict | | lia | lia |].
+    + apply (chain_chr_intro DIG [d1; d2] s g r Hr). repeat constructor; assumption.
+    + unfold rep_fuel. rewrite Hr. cbn. lia.
+  - apply in_ms_alt. right. apply in_ms_alt. left. apply (two_path XS 88 88 s g r Hr X88 X88).
+  - apply in_ms_alt. right. apply in_ms_alt. right. apply (two_path US 95 95 s g r Hr U95 U95).
+Qed.
+
+Lemma grp_sec_strict s g q : In q (ms (Grp 9 (secre DIG XS US)) s g) -> idx s < idx (fst q).
+Proof.
+  intros H. apply in_ms_grp in H. destruct H as (q' & H & ->). cbn [fst].
+  destruct (secre_inv DIG XS US _ _ _ H) as (c & (_ & _ & I) & _ & Sc). rewrite I.
+  destruct Sc as [? ? ->|? ? ->|? ? ->]; cbn; lia.
+Qed.
+
+Theorem unpacker_complete a b c :
+  cshape NS a -> cshape EW b -> sshape c -> fullmatch trs_unpacker_regex G (a ++ b ++ c) <> None.
+Proof.
+  intros Ha Hb Hc. unfold fullmatch. rewrite st_at_full, m_spec, regex_shape. change G with 9.
+  set (x := a ++ b ++ c). set (s0 := mkst [] x 0). set (g0 := init_caps 9).
+  enough (E : exists p, In p (ms (unpacker DIG NS EW XS ZS US) s0 g0) /\ rest (fst p) = []).
+  { destruct E as (p & Hin & Hend).
+    pose proof (first_some_exists (fun y : res => match rest (fst y) with [] => Some y | _ => None end) _ p Hin) as K.
+    cbv beta in K. rewrite Hend in K. specialize (K ltac:(discriminate)).
+    destruct (first_some _ (ms (unpacker DIG NS EW XS ZS US) s0 g0)); [discriminate | contradiction]. }
+  unfold unpacker.
+  destruct (comp_path 2 3 4 NS s0 g0 a (b ++ c) Ha eq_refl) as (g1 & H1).
+  set (s1 := adv s0 a) in *. assert (R1 : rest s1 = b ++ c) by (apply (adv_rest s0 a); reflexivity).
+  set (c1 := setg g1 1 (idx s0, idx s1)).
+  destruct (comp_path 6 7 8 EW s1 c1 b c Hb R1) as (g2 & H2).
+  set (s2 := adv s1 b) in *. assert (R2 : rest s2 = c) by (apply (adv_rest s1 b); exact R1).
+  set (c2 := setg g2 5 (idx s1, idx s2)).
+  assert (Hq1 : In (s1, c1) (ms (Grp 1 (comp 2 3 4 DIG NS XS ZS US)) s0 g0)) by (apply in_ms_grp; exists (s1, g1); split; [exact H1 | reflexivity]).
+  assert (Hq2 : In (s2, c2) (ms (Grp 5 (comp 6 7 8 DIG EW XS ZS US)) s1 c1)) by (apply in_ms_grp; exists (s2, g2); split; [exact H2 | reflexivity]).
+  destruct c as [|d0 c'] eqn:Ec.
+  - exists (s2, c2). split; [|exact R2].
+    apply in_ms_seq. exists (s1, c1). split; [exact Hq1|]. apply in_ms_seq. exists (s2, c2). split; [exact Hq2|]. cbn [fst snd].
+    apply (in_ms_rep_intro 0 (Some 1) _ s2 c2 _ 0); [apply grp_sec_strict | constructor | lia | lia | unfold rep_fuel; lia].
+  - rewrite <- Ec in *. assert (Hne : c <> []) by (rewrite Ec; discriminate).
+    assert (R2' : rest s2 = c ++ []) by (rewrite app_nil_r; exact R2).
+    pose proof (sec_path s2 c2 c [] Hc Hne R2') as H3.
+    set (s3 := adv s2 c) in *. set (c3 := setg c2 9 (idx s2, idx s3)).
+    exists (s3, c3). split; [|apply (adv_rest s2 c); exact R2'].
+    apply in_ms_seq. exists (s1, c1). split; [exact Hq1|]. apply in_ms_seq. exists (s2, c2). split; [exact Hq2|]. cbn [fst snd].
+    apply (in_ms_rep_intro 0 (Some 1) _ s2 c2 _ 1); [apply grp_sec_strict | | lia | lia | unfold rep_fuel; lia].
+    eapply chainS; [apply in_ms_grp; exists (s3, c2); split; [exact H3 | reflexivity] | constructor].
+Qed.
+
+(* ================================================================== *)
+(* Uniqueness of the decomposition: the component shapes form a prefix code *)
+Lemma digit_prefix_unique : forall w w' d d' (r r' : list N),
+  Forall (inset DIG) w -> Forall (inset DIG) w' -> ~ inset DIG d -> ~ inset DIG d' ->
+  w ++ d :: r = w' ++ d' :: r' -> w = w' /\ d = d' /\ r = r'.
+Proof.
+  induction w as [|c w IH]; intros [|c' w'] d d' r r' Hf Hf' Hd Hd' E; cbn in E.
+  - injection E as -> ->. auto.
+  - injection E as -> _. inversion Hf'; subst. contradiction.
+  - injection E as -> _. inversion Hf; subst. contradiction.
+  - injection E as -> E. inversion Hf; subst. inversion Hf'; subst.
+    destruct (IH w' d d' r r') as (-> & -> & ->); auto.
+Qed.
+
+Definition letters_ok (ds : list (N * N)) : Prop := forall d, inset ds d -> ~ inset DIG d.
+
+Lemma NS_letters : letters_ok NS.
+Proof. intros d H Hd. destruct (dig_facts d Hd) as (_ & _ & _ & _ & _ & _ & K & _). unfold inset in H. congruence. Qed.
+Lemma EW_letters : letters_ok EW.
+Proof. intros d H Hd. destruct (dig_facts d Hd) as (_ & _ & _ & _ & _ & _ & _ & K & _). unfold inset in H. congruence. Qed.
+
+Lemma cshape_unique ds a a' r r' : letters_ok ds -> cshape ds a -> cshape ds a' -> a ++ r = a' ++ r' -> a = a' /\ r = r'.
+Proof.
+  intros Hds H H' E.
+  assert (Hx : ~ inset DIG 88%N) by (intros K; destruct (dig_facts _ K) as (_ & _ & _ & _ & _ & _ & _ & _ & K' & _); discriminate K').
+  assert (Hu : ~ inset DIG 95%N) by (intros K; destruct (dig_facts _ K) as (_ & _ & _ & K' & _); apply K'; reflexivity).
+  destruct H as [w d -> Hl Hf Hd| -> | ->]; destruct H' as [w' d' -> Hl' Hf' Hd'| -> | ->].
+  - rewrite <- !app_assoc in E. cbn [app] in E.
+    destruct (digit_prefix_unique w w' d d' r r' Hf Hf' (Hds _ Hd) (Hds _ Hd') E) as (-> & -> & ->). auto.
+  - exfalso. destruct w as [|c w]; [cbn in Hl; lia|]. cbn in E. injection E as -> _. inversion Hf; subst. contradiction.
+  - exfalso. destruct w as [|c w]; [cbn in Hl; lia|]. cbn in E. injection E as -> _. inversion Hf; subst. contradiction.
+  - exfalso. destruct w' as [|c w']; [cbn in Hl'; lia|]. cbn in E. injection E as <- _. inversion Hf'; subst. contradiction.
+  - split; [reflexivity | exact (app_inv_head _ _ _ E)].
+  - discriminate E.
+  - exfalso. destruct w' as [|c w']; [cbn in Hl'; lia|]. cbn in E. injection E as <- _. inversion Hf'; subst. contradiction.
+  - discriminate E.
+  - split; [reflexivity | exact (app_inv_head _ _ _ E)].
+Qed.
+
+(* ================================================================== *)
+(* Idempotence *)
+Definition low_closed (ds : list (N * N)) : Prop :=
+  forall d, inset ds d -> exists d', lower [d] = [d'] /\ inset ds d' /\ lower [d'] = [d'].
+
+Lemma NS_low : low_closed NS.
+Proof. intros d H. destruct (NS_points d H) as [-> | [-> | [-> | ->]]]; eexists; (split; [reflexivity|]); split; reflexivity. Qed.
+Lemma EW_low : low_closed EW.
+Proof. intros d H. destruct (EW_points d H) as [-> | [-> | [-> | ->]]]; eexists; (split; [reflexivity|]); split; reflexivity. Qed.
+
+Lemma cnorm_in ds a na : cnorm ds a na -> cshape ds a.
+Proof. intros [w d Ha Hl Hf Hd _| Ha _ | Ha _]; [eapply CSh_valid; eassumption | apply CSh_err; exact Ha | apply CSh_und; exact Ha]. Qed.
+
+Lemma cnorm_out ds a na : low_closed ds -> cnorm ds a na -> cshape ds na.
+Proof.
+  intros Hlow [w d Ha Hl Hf Hd ->| _ -> | _ ->]; [|apply CSh_err; reflexivity | apply CSh_und; reflexivity].
+  destruct (Hlow d Hd) as (d' & -> & Hd' & _). eapply CSh_valid; [reflexivity | exact Hl | exact Hf | exact Hd'].
+Qed.
+
+Lemma cnorm_fix ds a na na' : letters_ok ds -> low_closed ds -> cnorm ds a na -> cnorm ds na na' -> na' = na.
+Proof.
+  intros Hds Hlow H1 H2.
+  destruct H2 as [w' d' E' Hl' Hf' Hd' ->| -> -> | -> ->]; [|reflexivity | reflexivity].
+  destruct H1 as [w d _ Hl Hf Hd ->| _ -> | _ ->].
+  - destruct (Hlow d Hd) as (dl & L & Hdl & Ldl). rewrite L in E'.
+    destruct (digit_prefix_unique w w' dl d' [] [] Hf Hf' (Hds _ Hdl) (Hds _ Hd') E') as (-> & -> & _). rewrite L, Ldl. reflexivity.
+  - exfalso. destruct w' as [|c w']; [cbn in Hl'; lia|]. cbn in E'. injection E' as <- _. inversion Hf'; subst.
+    destruct (dig_facts _ H1) as (_ & _ & _ & _ & _ & _ & _ & _ & K & _). discriminate K.
+  - exfalso. destruct w' as [|c w']; [cbn in Hl'; lia|]. cbn in E'. injection E' as <- _. inversion Hf'; subst.
+    destruct (dig_facts _ H1) as (_ & _ & _ & K & _). apply K. reflexivity.
+Qed.
+
+Lemma snorm_out (c nc : str) : snorm c nc -> sshape nc /\ nc <> [].
+Proof.
+  intros [-> -> | d1 d2 -> I1 I2 -> | -> -> | -> ->]; (split; [|discriminate]);
+    [apply SSh_err; reflexivity | eapply SSh_dig; [reflexivity | exact I1 | exact I2] | apply SSh_err; reflexivity | apply SSh_und; reflexivity].
+Qed.
+
+Lemma snorm_fix (c nc nc' : str) : nc <> [] -> snorm nc nc' -> nc' = nc.
+Proof. intros Hne [-> _ | d1 d2 _ _ _ -> | _ -> | _ ->]; [contradiction | reflexivity..]. Qed.
+
+Lemma cshape_nonempty ds a : cshape ds a -> a <> [].
+Proof. intros [w d -> _ _ _| -> | ->]; [destruct w; discriminate | discriminate | discriminate]. Qed.
+
+Theorem TRS_trs_idem_some x : x <> [] -> TRS_trs (Some (TRS_trs (Some x))) = TRS_trs (Some x).
+Proof.
+  intros Hne. destruct (TRS_trs_spec x Hne) as [_ ->|a b c na nb nc _ Hy Ha Hb Hc]; [vm_compute; reflexivity|].
+  rewrite Hy.
+  pose proof (cnorm_out NS a na NS_low Ha) as Sa. pose proof (cnorm_out EW b nb EW_low Hb) as Sb.
+  destruct (snorm_out c nc Hc) as [Sc Nc].
+  assert (Hne' : na ++ nb ++ nc <> []) by (pose proof (cshape_nonempty _ _ Sa); destruct na; [contradiction | discriminate]).
+  pose proof (TRS_trs_spec (na ++ nb ++ nc) Hne') as K.
+  inversion K as [Hno _|a' b' c' na' nb' nc' Hx' Hy' Ha' Hb' Hc'].
+  - exfalso. exact (unpacker_complete na nb nc Sa Sb Sc Hno).
+  - etransitivity; [exact Hy'|]. destruct (cshape_unique NS na a' (nb ++ nc) (b' ++ c') NS_letters Sa (cnorm_in _ _ _ Ha') Hx') as [<- E1].
+    destruct (cshape_unique EW nb b' nc c' EW_letters Sb (cnorm_in _ _ _ Hb') E1) as [<- <-].
+    rewrite (cnorm_fix NS a na na' NS_letters NS_low Ha Ha'), (cnorm_fix EW b nb nb' EW_letters EW_low Hb Hb'), (snorm_fix c nc nc' Nc Hc').
+    reflexivity.
+Qed.
+
+Theorem TRS_trs_idem : C12_idem_statement.
+Proof.
+  intros [[|c0 x]|]; [vm_compute; reflexivity | apply TRS_trs_idem_some; discriminate | vm_compute; reflexivity].
+Qed.
+
+(* ================================================================== *)
+(* Strictness *)
+Lemma cnorm_strict ds a na : cnorm ds a na -> na = lower a \/ (na = a /\ (a = MC_ERR_TWP \/ a = MC_UNDEF_TWP)).
+Proof.
+  intros [w d -> _ Hf _ ->| -> -> | -> ->]; [left | right; split; [reflexivity | left; reflexivity] | right; split; [reflexivity | right; reflexivity]].
+  rewrite lower_app, (lower_digits _ Hf). reflexivity.
+Qed.
+
+Theorem TRS_strict : C12_strict_statement.
+Proof.
+  intros x Hne. destruct (TRS_trs_spec x Hne) as [_ Hy|a b c na nb nc Hx Hy Ha Hb Hc]; [left; exact Hy|].
+  right. exists a, b, c, na, nb, nc. split; [exact Hx|]. split; [exact Hy|].
+  split; [exact (cnorm_strict _ _ _ Ha)|]. split; [exact (cnorm_strict _ _ _ Hb)|].
+  destruct Hc as [-> -> | d1 d2 _ _ _ -> | _ -> | _ ->]; [right; split; reflexivity | left; reflexivity..].
+Qed.
+
+(* ================================================================== *)
+(* construct_trs: the three component theorems compose *)
+Lemma legal_ns c : is_ns c = true -> mem_str (lower [c]) MC_LEGAL_NS = true.
+Proof. intros H. destruct (is_ns_cases _ H) as [<-|[<-|[]]]; reflexivity. Qed.
+Lemma legal_ew c : is_ew c = true -> mem_str (lower [c]) MC_LEGAL_EW = true.
+Proof. intros H. destruct (is_ew_cases _ H) as [<-|[<-|[]]]; reflexivity. Qed.
+
+Lemma scrub_KNS_indep x dns dew dew' ocr : scrub x KNS dns dew ocr = scrub x KNS dns dew' ocr.
+Proof. destruct x; reflexivity. Qed.
+Lemma scrub_KEW_indep x dns dns' dew ocr : scrub x KEW dns dew ocr = scrub x KEW dns' dew ocr.
+Proof. destruct x; reflexivity. Qed.
+Lemma scrub_KSEC_indep x dns dns' dew dew' ocr : scrub x KSEC dns dew ocr = scrub x KSEC dns' dew' ocr.
+Proof. destruct x; reflexivity. Qed.
+
+Definition construct_body (twp rge sec : tin) (dns dew : str) (ocr : bool) : Py str :=
+  if negb (mem_str (lower dns) MC_LEGAL_NS) then Raise DefaultNSError
+  else if negb (mem_str (lower dew) MC_LEGAL_EW) then Raise DefaultEWError
+  else
+    let '(twp', ns) := scrub twp KNS dns dew ocr in
+    let '(rge', ew) := scrub rge KEW dns dew ocr in
+    let '(sec', _) := scrub sec KSEC dns dew ocr in
+    let ns := match ns with Some d => d | None => dns end in
+    let ew := match ew with Some d => d | None => dew end in
+    Ok (finish_twprge twp' ns MC_UNDEF_TWP MC_ERR_TWP inl_trs_twp inl_trs_twp_ng
+        ++ finish_twprge rge' ew MC_UNDEF_RGE MC_ERR_RGE inl_trs_rge inl_trs_rge_ng
+        ++ finish_sec sec').
+
+Lemma construct_trs_body twp rge sec odns odew ocr mns mew :
+  construct_trs twp rge sec odns odew ocr mns mew =
+  construct_body twp rge sec (match odns with Some d => d | None => mns end) (match odew with Some d => d | None => mew end) ocr.
+Proof. reflexivity. Qed.
+
+Lemma construct_core t r sc ns ew (dn de : N) et er es :
+  (t < 1000)%N -> (r < 1000)%N -> (sc < 100)%N ->
+  is_ns ns = true -> is_ew ew = true -> is_ns dn = true -> is_ew de = true -> (es = EInt \/ es = EStr) ->
+  construct_body (encode et t ns) (encode er r ew) (encode es sc 0%N) [dn] [de] false
+  = Ok (canon_trs t (if enc_has_dir et then ns else dn) r (if enc_has_dir er then ew else de) sc).
+Proof.
+  intros Ht Hr Hsc Hns Hew Hdn Hde Hes. unfold construct_body.
+  rewrite (legal_ns _ Hdn), (legal_ew _ Hde). cbn [negb].
+  pose proof (twp_component t ns dn et Ht Hns Hdn) as K1. unfold twp_ok in K1.
+  rewrite (scrub_KNS_indep _ [dn] [119%N] [de]) in K1. destruct (scrub (encode et t ns) KNS [dn] [de] false) as [x1 d1].
+  pose proof (rge_component r ew de er Hr Hew Hde) as K2. unfold rge_ok in K2.
+  rewrite (scrub_KEW_indep _ [110%N] [dn] [de]) in K2. destruct (scrub (encode er r ew) KEW [dn] [de] false) as [x2 d2].
+  pose proof (sec_component sc es Hsc Hes) as K3. unfold sec_ok in K3.
+  rewrite (scrub_KSEC_indep _ [110%N] [dn] [119%N] [de]) in K3. destruct (scrub (encode es sc 0%N) KSEC [dn] [de] false) as [x3 d3].
+  apply str_eqb_true in K1, K2, K3. rewrite K1, K2, K3. unfold canon_trs. rewrite <- !app_assoc. reflexivity.
+Qed.
+
+Theorem TRS_construct : C12_construct_statement.
+Proof.
+  intros t r sc ns ew dns dew mns mew et er es odns odew Ht Hr Hsc Hns Hew Hdns Hdew Hmns Hmew Hes eff_ns eff_ew.
+  subst eff_ns eff_ew. rewrite construct_trs_body. destruct odns, odew; apply construct_core; assumption.
+Qed.
